@@ -17,6 +17,7 @@ import (
 	"github.com/z7zmey/php-parser/pkg/parser"
 	"github.com/z7zmey/php-parser/pkg/token"
 	"github.com/z7zmey/php-parser/pkg/version"
+	"github.com/z7zmey/php-parser/pkg/visitor"
 	"github.com/z7zmey/php-parser/pkg/visitor/dumper"
 	"github.com/z7zmey/php-parser/pkg/visitor/nsresolver"
 	"github.com/z7zmey/php-parser/pkg/visitor/printer"
@@ -182,7 +183,7 @@ func doParse(in *scn.Input, share bool) (p parsed) {
 
 // ---------------------------------------------------------------- operations
 
-var opKinds = []string{"print", "dump", "dumpT", "dumpP", "dumpTP", "traverse", "resolve"}
+var opKinds = []string{"print", "dump", "dumpT", "dumpP", "dumpTP", "traverse", "resolve", "printP", "null"}
 
 type opResult struct {
 	out      string // full output, or panic text
@@ -228,6 +229,10 @@ func doOp(kind string, root ast.Vertex, srcLen int, fault *scn.WFault) (res opRe
 	switch kind {
 	case "print":
 		root.Accept(printer.NewPrinter(w))
+	case "printP": // the printer told it is already inside PHP code
+		root.Accept(printer.NewPrinter(w).WithState(printer.PrinterStatePHP))
+	case "null": // traversal with the library's own do-nothing visitor
+		traverser.NewTraverser(&visitor.Null{}).Traverse(root)
 	case "dump":
 		dumper.NewDumper(w).Dump(root)
 	case "dumpT":
